@@ -62,7 +62,8 @@ Inductive perr :=
 | E_unexpected | E_ws_after_unary | E_ws_before_bracket | E_ws_before_dot | E_ws_after_dot
 | E_expected (t : toktype) | E_map_key | E_dup_key | E_bad_num | E_anon_var | E_unknown_var
 | E_func_needs_parens | E_bad_type | E_assert_any
-| E_type (s : tsite).    (* a typing error (typing itself is not modelled, see e_tyerr) *)
+| E_type (s : tsite)     (* a typing error (typing itself is not modelled, see e_tyerr) *)
+| E_stmt (code : nat).   (* the appendError sites of parser.go, numbered in Parser.v *)
 
 (* ---------- parser state ---------- *)
 Record pstate := {
